@@ -2,9 +2,15 @@
 <polylist> or <polygons> primitive, loads it with pycollada, records the resulting index arrays
 (canonical observations for the in-Coq correspondence) and evaluates the property's clauses
 directly on the loaded objects (`fails`).  The document text is produced here by plain string
-formatting, never by pycollada."""
+formatting, never by pycollada.
+
+The source DATA (positions, normals, texture coordinates) comes with the case: the property says
+the operations only permute index rows, so they must not depend on what the rows point to
+(concave / collinear / coincident / NaN positions ...)."""
 import io
+import itertools
 import json
+import math
 import sys
 from collections import Counter
 
@@ -20,7 +26,7 @@ def exc_code(e):
     return 12
 
 
-# ---- source data: exactly representable in float32, different for every label and source
+# ---- default source data (cases without a 'data' table): exactly representable in float32
 def pos_of(j):
     return [float(j), float(2 * j + 1), float(-j)]
 
@@ -33,8 +39,34 @@ def tex_of(s, j):
     return [float(j), float(1000 * (s + 1) + j)]
 
 
+NTEX = 3
+NNRM = 2
+
+
+def tables(case):
+    """{'pos': [...], 'nrm': [[...], [...]], 'tex': [[...], [...], [...]]}: one entry per label"""
+    n = case['nsrc']
+    d = case.get('data') or {}
+
+    def fl(rows):
+        return [[float(x) for x in r] for r in rows]
+    return {'pos': fl(d['pos']) if 'pos' in d else [pos_of(j) for j in range(n)],
+            'nrm': [fl(t) for t in d['nrm']] if 'nrm' in d else
+                   [[nrm_of(j) for j in range(n)], [[float(-j), 3.0, j + 0.25] for j in range(n)]],
+            'tex': [fl(t) for t in d['tex']] if 'tex' in d else
+                   [[tex_of(s, j) for j in range(n)] for s in range(NTEX)]}
+
+
+def num(x):
+    if x != x:
+        return 'NaN'
+    if x in (float('inf'), float('-inf')):
+        return 'INF' if x > 0 else '-INF'
+    return '%.9g' % x
+
+
 def source_xml(sid, comps, values, n):
-    flat = ' '.join(('%g' % x) for v in values for x in v)
+    flat = ' '.join(num(x) for v in values for x in v)
     params = ''.join('<param name="%s" type="float"/>' % c for c in comps)
     return ('<source id="%s"><float_array id="%s-array" count="%d">%s</float_array><technique_common>'
             '<accessor source="#%s-array" count="%d" stride="%d">%s</accessor></technique_common></source>'
@@ -47,25 +79,33 @@ def p_xml(p, form):
     return '<p>%s</p>' % ' '.join(map(str, p))
 
 
-def build_document(case):
-    n = case['nsrc']
-    srcs = [source_xml('pos', 'XYZ', [pos_of(j) for j in range(n)], n),
-            source_xml('nrm', 'XYZ', [nrm_of(j) for j in range(n)], n),
-            source_xml('tex0', 'ST', [tex_of(0, j) for j in range(n)], n),
-            source_xml('tex1', 'ST', [tex_of(1, j) for j in range(n)], n),
-            source_xml('col', 'RGB', [[0.0, 0.0, 1.0]] * n, n)]
-    inputs = []
-    ntex = 0
+def input_sources(case):
+    """source key of every input, in document order: ('pos',), ('nrm', i), ('tex', i), ('col',)"""
+    out, nn, nt = [], 0, 0
     for sem, off, st in case['inputs']:
         if sem == 'VERTEX':
-            src = 'verts'
+            out.append(('pos',))
         elif sem == 'NORMAL':
-            src = 'nrm'
+            out.append(('nrm', nn % NNRM))
+            nn += 1
         elif sem == 'TEXCOORD':
-            src = 'tex%d' % ntex
-            ntex += 1
+            out.append(('tex', nt % NTEX))
+            nt += 1
         else:
-            src = 'col'
+            out.append(('col',))
+    return out
+
+
+def build_document(case):
+    n = case['nsrc']
+    tb = tables(case)
+    srcs = [source_xml('pos', 'XYZ', tb['pos'], n)]
+    srcs += [source_xml('nrm%d' % i, 'XYZ', tb['nrm'][i], n) for i in range(NNRM)]
+    srcs += [source_xml('tex%d' % i, 'ST', tb['tex'][i], n) for i in range(NTEX)]
+    srcs.append(source_xml('col', 'RGB', [[0.0, 0.0, 1.0]] * n, n))
+    inputs = []
+    for (sem, off, st), key in zip(case['inputs'], input_sources(case)):
+        src = {'pos': 'verts', 'col': 'col'}.get(key[0]) or '%s%d' % key
         inputs.append('<input offset="%d" semantic="%s" source="#%s"%s/>'
                       % (off, sem, src, '' if st is None else ' set="%d"' % st))
     kind = case['kind']
@@ -116,36 +156,110 @@ def expected_expand(kind, rows):
 
 
 def offsets_of(case):
-    """offsets of the inputs a Triangle / Polygon exposes: VERTEX, first NORMAL, every TEXCOORD"""
+    """offsets of the inputs a Triangle / Polygon exposes in the code as it stands: VERTEX, first
+    NORMAL, every TEXCOORD in listing order (used for the correspondence's observations)"""
     v = [o for s, o, _ in case['inputs'] if s == 'VERTEX'][:1]
     nn = [o for s, o, _ in case['inputs'] if s == 'NORMAL'][:1]
     t = [o for s, o, _ in case['inputs'] if s == 'TEXCOORD']
     return v, nn, t
 
 
-def check_attached(case, triset, why):
-    """the data delivered for every corner of every triangle is the data the corner's row points to"""
+def same(a, b):
+    """equal float vectors (as float32), NaN equal to NaN"""
     import numpy
-    v, nn, t = offsets_of(case)
-    idx = triset.index
-    for ti in range(len(idx)):
-        tri = triset[ti]
-        for c in range(3):
-            row = [int(x) for x in idx[ti][c]]
-            if [float(x) for x in tri.vertices[c]] != pos_of(row[v[0]]):
-                return why('attached', 'vertex', 'triangle %d corner %d: vertex data %r is not that of row %r'
-                           % (ti, c, tri.vertices[c].tolist(), row))
-            if nn:
-                if tri.normals is None or [float(x) for x in tri.normals[c]] != nrm_of(row[nn[0]]):
-                    return why('attached', 'normal', 'triangle %d corner %d: normal is not that of row %r' % (ti, c, row))
-            if len(tri.texcoords) != len(t):
-                return why('attached', 'texcoord', 'triangle %d has %d texcoord sets, the primitive has %d inputs'
-                           % (ti, len(tri.texcoords), len(t)))
-            for s, off in enumerate(t):
-                if [float(x) for x in tri.texcoords[s][c]] != tex_of(s, row[off]):
-                    return why('attached', 'texcoord', 'triangle %d corner %d set %d: texcoord is not that of row %r'
-                               % (ti, c, s, row))
-    return None
+    x = numpy.asarray(a, dtype=numpy.float32).ravel()
+    y = numpy.asarray(b, dtype=numpy.float32).ravel()
+    return x.shape == y.shape and bool(numpy.array_equal(x, y, equal_nan=True))
+
+
+def finite(v):
+    return all(math.isfinite(float(x)) for x in v)
+
+
+class Layout(object):
+    """Which input feeds which slot of a Triangle/Polygon.  The property fixes that every input's
+    index and data stay with their corner; it does not fix in which order several inputs of one
+    semantic are exposed.  An *assignment* is (normal input or None, tuple of texcoord inputs):
+    positions in case['inputs'].  A path (whole primitive / per polygon) is acceptable when at
+    least one assignment explains everything it delivers, and two paths agree when one
+    assignment explains both."""
+
+    def __init__(self, case):
+        self.case = case
+        self.tb = tables(case)
+        self.keys = input_sources(case)
+        ins = case['inputs']
+        self.v = [i for i, x in enumerate(ins) if x[0] == 'VERTEX'][0]
+        self.normals = [i for i, x in enumerate(ins) if x[0] == 'NORMAL']
+        self.texs = [i for i, x in enumerate(ins) if x[0] == 'TEXCOORD']
+
+    def off(self, i):
+        return self.case['inputs'][i][1]
+
+    def data(self, i, label):
+        key = self.keys[i]
+        t = self.tb['pos'] if key[0] == 'pos' else self.tb[key[0]][key[1]]
+        return t[label]
+
+    def assignments(self, has_normal, ntex):
+        ns = self.normals if has_normal else [None]
+        if has_normal and not self.normals:
+            return []
+        if ntex != len(self.texs):
+            return []
+        return [(n, p) for n in ns for p in itertools.permutations(self.texs)]
+
+    def explains(self, a, corner):
+        """corner = (row or None, vidx, vdata, nidx, ndata, [tidx], [tdata]); row = full index row when
+        the path delivers it"""
+        row, vi, vd, ni, nd, tis, tds = corner
+        n, perm = a
+        if row is not None:
+            if vi != row[self.off(self.v)]:
+                return False
+            if n is not None and ni != row[self.off(n)]:
+                return False
+            for s, ti in enumerate(perm):
+                if tis[s] != row[self.off(ti)]:
+                    return False
+        if not same(vd, self.data(self.v, vi)):
+            return False
+        if n is not None and not same(nd, self.data(n, ni)):
+            return False
+        for s, ti in enumerate(perm):
+            if not same(tds[s], self.data(ti, tis[s])):
+                return False
+        return True
+
+    def project(self, a, row):
+        n, perm = a
+        return tuple([row[self.off(self.v)]] + ([row[self.off(n)]] if n is not None else []) +
+                     [row[self.off(t)] for t in perm])
+
+
+def corners_of(tri, rows3):
+    """the three corners of a Triangle object as tuples for Layout.explains"""
+    out = []
+    # a Triangle without a normal input computes face normals itself and carries no normal indices
+    has_n = tri.normal_indices is not None and hasattr(tri.normal_indices, '__len__')
+    for c in range(3):
+        out.append((None if rows3 is None else rows3[c], int(tri.indices[c]), tri.vertices[c],
+                    int(tri.normal_indices[c]) if has_n else None, tri.normals[c] if has_n else None,
+                    [int(x[c]) for x in tri.texcoord_indices], [x[c] for x in tri.texcoords]))
+    return out, has_n, len(tri.texcoords)
+
+
+def whole_assignments(lay, triset, tris):
+    """assignments that explain every corner of every triangle of a triangle set whose index rows are `tris`"""
+    cands = None
+    for ti in range(len(tris)):
+        cs, has_n, ntex = corners_of(triset[ti], tris[ti])
+        if cands is None:
+            cands = lay.assignments(has_n, ntex)
+        cands = [a for a in cands if all(lay.explains(a, c) for c in cs)]
+        if not cands:
+            return [], ti
+    return cands, None
 
 
 def as_triangles(arr, k):
@@ -157,7 +271,7 @@ def as_triangles(arr, k):
     return [[[int(x) for x in c] for c in tr] for tr in a.tolist()]
 
 
-def check_bound(doc, case, tris, pp, why):
+def check_bound(doc, case, lay, tris, pp, why):
     """the same primitive reached through the scene (bound to the identity transform) gives the same
     triangles; evaluated only when there is at least one triangle"""
     kind, k = case['kind'], case['nind']
@@ -168,12 +282,14 @@ def check_bound(doc, case, tris, pp, why):
         bp = list(bg.primitives())[0]
         bts = bp.triangleset() if kind in ('polylist', 'polygons') else bp
         bidx = as_triangles(bts.index, k)
-        v, nn, t = offsets_of(case)
         if bidx != tris:
             return why('bound', 'index', 'bound triangle set has index %r, unbound %r' % (bidx, tris))
+        voff = lay.off(lay.v)
         for ti, tr in enumerate(bts):
             for c in range(3):
-                if [float(x) for x in tr.vertices[c]] != pos_of(tris[ti][c][v[0]]):
+                want = lay.data(lay.v, tris[ti][c][voff])
+                # the identity transform is a matrix product: rows with NaN/inf do not survive it
+                if finite(want) and not same(tr.vertices[c], want):
                     return why('bound', 'vertex', 'bound triangle %d corner %d: vertex is not that of its row' % (ti, c))
         if pp is not None and kind in ('polylist', 'polygons'):
             for pi in range(len(bp)):
@@ -213,8 +329,8 @@ def run_case(case):
         out['load_code'] = exc_code(e)
         why('loads', type(e).__name__, 'loading the document raised %r' % (e,))
         return out
+    lay = Layout(case)
     v, nn, t = offsets_of(case)
-    proj = v + nn + t
 
     if kind in ('tristrips', 'trifans'):
         idx = prim.index
@@ -222,16 +338,19 @@ def run_case(case):
         runs = [rows_of(p, k) for p in case['ps']]
         exp = [tr for r in runs for tr in expected_expand(kind, r)]
         want = sum(max(len(r) - 2, 0) for r in runs)
-        got = [tuple(tuple(int(x) for x in c) for c in tr) for tr in idx.tolist()]
+        got = [tuple(tuple(c) for c in tr) for tr in out['index']]
         if len(prim) != want or len(got) != want:
             why('count', 'ntriangles', '%d triangles for run lengths %r, expected %d'
                 % (len(got), [len(r) for r in runs], want))
         elif Counter(map(canon, got)) != Counter(map(canon, exp)):
             why('winding', 'index', 'triangles %r, expected (up to order and rotation) %r' % (got, exp))
         else:
-            check_attached(case, prim, why)
+            cands, at = whole_assignments(lay, prim, out['index'])
+            if got and not cands:
+                why('attached', 'Triangle', 'triangle %d: the delivered vertex/normal/texcoord indices or data '
+                    'are not those of its rows %r under any assignment of inputs' % (at, got[at]))
         if not fails:
-            check_bound(doc, case, out['index'], None, why)
+            check_bound(doc, case, lay, out['index'], None, why)
         return out
 
     # polylist / polygons
@@ -260,8 +379,9 @@ def run_case(case):
         why('triangulates', 'triangleset:' + type(e).__name__, 'triangleset() raised %r for vcounts %r' % (e, vc))
         return out
     out['tri_index'] = as_triangles(tidx, k)
-    got = [tuple(tuple(int(x) for x in c) for c in tr) for tr in tidx.tolist()]
+    got = [tuple(tuple(c) for c in tr) for tr in out['tri_index']]
     bad = False
+    whole = None
     if len(ts) != want or len(got) != want:
         bad = why('count', 'triangleset', '%d triangles for vcounts %r, expected %d' % (len(got), vc, want))
     else:
@@ -273,51 +393,60 @@ def run_case(case):
                 bad = why('fan', 'triangleset', 'polygon %d (vcounts %r): triangles %r, expected the fan %r'
                           % (pi, vc, part, g))
                 break
-        if not bad:
-            bad = bool(check_attached(case, ts, why))
+        if not bad and got:
+            whole, at = whole_assignments(lay, ts, out['tri_index'])
+            if not whole:
+                bad = why('attached', 'triangleset', 'triangle %d: the delivered vertex/normal/texcoord indices or '
+                          'data are not those of its rows %r under any assignment of inputs' % (at, got[at]))
     # per-polygon triangulation through Polygon.triangles(); a polylist without any index row has
     # no per-input index arrays to slice (iteration of empty primitives is C10's subject)
     if len(rows) > 0:
+        pcands = None
         try:
             pp = []
             for pi in range(len(prim)):
                 poly = prim[pi]
                 tris = []
                 for tr in poly.triangles():
+                    cs, has_n, ntex = corners_of(tr, None)
+                    if pcands is None:
+                        pcands = lay.assignments(has_n, ntex)
                     cols = [tr.indices]
-                    if nn:
+                    if has_n:
                         cols.append(tr.normal_indices)
                     cols.extend(tr.texcoord_indices)
-                    corners = [[int(col[c]) for col in cols] for c in range(3)]
-                    tris.append(corners)
-                    # the data of the corner is the data of that row
-                    for c in range(3):
-                        if [float(x) for x in tr.vertices[c]] != pos_of(corners[c][0]):
-                            why('attached', 'Polygon.triangles:vertex', 'polygon %d: vertex data does not follow its index' % pi)
-                        if nn and [float(x) for x in tr.normals[c]] != nrm_of(corners[c][1]):
-                            why('attached', 'Polygon.triangles:normal', 'polygon %d: normal data does not follow its index' % pi)
-                        for si in range(len(t)):
-                            if [float(x) for x in tr.texcoords[si][c]] != tex_of(si, corners[c][len(v) + len(nn) + si]):
-                                why('attached', 'Polygon.triangles:texcoord', 'polygon %d: texcoord data does not follow its index' % pi)
+                    tris.append([[int(col[c]) for col in cols] for c in range(3)])
+                    # every slot's data is the data its own index points to, under some assignment
+                    pcands = [a for a in pcands if all(lay.explains(a, c) for c in cs)]
+                    if not pcands and not fails:
+                        why('attached', 'Polygon.triangles', 'polygon %d: the data delivered for a corner is not the '
+                            'data of its indices under any assignment of inputs' % pi)
                 pp.append(tris)
             out['pp'] = pp
         except Exception as e:  # noqa
             out['pp_code'] = exc_code(e)
             why('per-polygon', 'Polygon.triangles:' + type(e).__name__, 'per-polygon triangulation raised %r' % (e,))
             return out
-
-        def project(tr):
-            return tuple(tuple(c[o] for o in proj) for c in tr)
-        for pi, g in enumerate(exp_groups):
-            if Counter(canon(x) for x in pp[pi]) != Counter(canon(project(x)) for x in g):
-                why('per-polygon', 'Polygon.triangles', 'polygon %d: triangles() gives %r, expected the fan %r'
-                    % (pi, pp[pi], [project(x) for x in g]))
-                break
-        else:
-            if not bad and Counter(canon(x) for g in pp for x in g) != Counter(canon(project(x)) for x in got):
-                why('per-polygon', 'agrees', 'per-polygon triangles differ from the whole-primitive triangulation')
+        if pcands is None:
+            pcands = []          # no polygon has a triangle
+        # the triangles of every polygon are its fan, read through one assignment of inputs
+        good = []
+        for a in pcands:
+            if all(Counter(canon(x) for x in pp[pi]) == Counter(canon([lay.project(a, r) for r in x]) for x in g)
+                   for pi, g in enumerate(exp_groups)):
+                good.append(a)
+        if any(exp_groups) and not fails:
+            if [len(x) for x in pp] != [len(g) for g in exp_groups]:
+                why('per-polygon', 'Polygon.triangles', 'per-polygon triangle counts %r, expected %r'
+                    % ([len(x) for x in pp], [len(g) for g in exp_groups]))
+            elif not good:
+                why('per-polygon', 'Polygon.triangles', 'Polygon.triangles() gives %r, the fans of the polygons are %r '
+                    '(no assignment of inputs to the exposed columns explains it)' % (pp, exp_groups))
+            elif whole is not None and not [a for a in good if a in whole]:
+                why('per-polygon', 'agrees', 'Polygon.triangles() and triangleset() attach different inputs to the same '
+                    'corners: per polygon %r, whole primitive %r (normal input, texcoord inputs by slot)' % (good, whole))
     if not fails:
-        check_bound(doc, case, out['tri_index'], out['pp'], why)
+        check_bound(doc, case, lay, out['tri_index'], out['pp'], why)
     return out
 
 
